@@ -43,7 +43,7 @@ def getDefs (j : Json) : R Defs := do
     d := define d s.toList u
   pure d
 
-partial def getTree (j : Json) : R UTree := do
+private partial def getTree (j : Json) : R UTree := do
   let a ← getArr j
   let tag ← getStr a[0]!
   match tag with
